@@ -1109,8 +1109,9 @@ func (c *Ctx) initGhosts(st *State, ref Term, elem types.Type) {
 // denotes an object allocated so far, and not one the function under verification has
 // allocated and not yet stored or passed anywhere.
 func (e *Env) heapRef(t Term, gt types.Type) Term {
-	if e.st == nil || e.st.alloc.S == "" || strings.Contains(t.S, "?arg") {
-		// (shape-only evaluation of a modifies clause over placeholder arguments: no facts)
+	if e.st == nil || e.st.alloc.S == "" || strings.Contains(t.S, "?arg") || strings.Contains(t.S, "!q") {
+		// (shape-only evaluation of a modifies clause over placeholder arguments, or a
+		// load under a quantifier, whose bound variable must not leak into a global fact)
 		return t
 	}
 	switch gt.Underlying().(type) {
